@@ -91,8 +91,10 @@ func runC13(e *Env) {
 		cc := &c13Conn{c: c.(*connection), closed: -1, prepared: simrt.Step()}
 		cc.fd = cc.c.fd
 		conns = append(conns, cc)
+		simrt.Publish()
 		c.AddCloseCallback(func(Connection) error {
 			cc.closed = simrt.Step()
+			simrt.Publish()
 			if cc.busy > 0 {
 				e.FailP("C05", "no-close-callback-during-handler", "closecb-during-handler", "close callback ran while the connection's handler is in progress (Shutdown must leave busy connections alone)")
 			}
